@@ -5,7 +5,7 @@ import Proofs.JsonScan
 import Proofs.JsonParse
 /-!
 C13: the JSON scanner + parser model accepts exactly the RFC 8259 grammar (`JsonText`) and computes the
-denoted value.  Soundness holds for any grapheme segmentation `adv`; completeness needs `SafeAdv adv`.
+denoted value, for any grapheme segmentation `adv` (the scanner clamps cluster steps, `clampAdv`).
 -/
 namespace HclModel.Json.Proofs
 open HclModel.Json
@@ -65,11 +65,28 @@ theorem S_inv_eof {adv : List Byte → Nat} {buf : List Byte} {pos : Nat} {t : T
   · rw [hty] at h2; cases h2
   · rw [hty] at h2; cases h2
 
-/-! ### soundness -/
+/-! ### soundness
+
+A string token may carry trailing whitespace (the validator strips it, `dropTrailingWs`), so a parsed value
+is located in the input as `w ++ v ++ w'` with both `w`, `w'` whitespace. -/
+
+theorem allWs_nil : AllWs [] := fun _ h => by cases h
+
+theorem allWs_append {a b : List Byte} (ha : AllWs a) (hb : AllWs b) : AllWs (a ++ b) := by
+  intro x hx
+  rcases List.mem_append.mp hx with h | h
+  · exact ha x h
+  · exact hb x h
+
+/-- an accepted string token: a JSON string followed by whitespace -/
+theorem string_token_sound {bs d : List Byte} (h : parseStringBytes bs = some d) :
+    ∃ s w, bs = s ++ w ∧ AllWs w ∧ IsString s d := by
+  obtain ⟨w, hb, hw⟩ := dropTrailingWs_spec bs
+  exact ⟨_, w, hb, hw, parseStringBytes_sound h⟩
 
 theorem parse_sound (adv : List Byte → Nat) : ∀ f,
     (∀ buf pos n ts, parseValue f (S adv buf pos) = some (n, ts) →
-      ∃ w v buf' pos', buf = w ++ v ++ buf' ∧ AllWs w ∧ Value v n ∧ ts = S adv buf' pos') ∧
+      ∃ w v w' buf' pos', buf = w ++ v ++ w' ++ buf' ∧ AllWs w ∧ AllWs w' ∧ Value v n ∧ ts = S adv buf' pos') ∧
     (∀ buf pos ns ts, parseElems f (S adv buf pos) = some (ns, ts) →
       ∃ body buf' pos', buf = body ++ 93 :: buf' ∧ Elems body ns ∧ ts = S adv buf' pos') ∧
     (∀ buf pos ms ts, parseMembers f (S adv buf pos) = some (ms, ts) →
@@ -87,71 +104,80 @@ theorem parse_sound (adv : List Byte → Nat) : ∀ f,
       case emptyObj t c h1 h2 =>
         obtain ⟨w, r, pos1, rfl, hw, hr⟩ := S_inv_punct 123 rfl hS h1
         obtain ⟨w', r', pos2, rfl, hw', hr'⟩ := S_inv_punct 125 rfl hr.symm h2
-        exact ⟨w, 123 :: w' ++ [125], r', pos2, by simp, hw, Value.emptyObj w' hw', hr'⟩
+        exact ⟨w, 123 :: w' ++ [125], [], r', pos2, by simp, hw, allWs_nil, Value.emptyObj w' hw', hr'⟩
       case obj t c rest ms h1 h2 h3 =>
         obtain ⟨w, r, pos1, rfl, hw, hr⟩ := S_inv_punct 123 rfl hS h1
         rw [hr] at h3
         obtain ⟨body, buf', pos2, rfl, hm, hts⟩ := ihm _ _ _ _ h3
-        exact ⟨w, 123 :: body ++ [125], buf', pos2, by simp, hw, Value.obj body ms hm, hts⟩
+        exact ⟨w, 123 :: body ++ [125], [], buf', pos2, by simp, hw, allWs_nil, Value.obj body ms hm, hts⟩
       case emptyArr t c h1 h2 =>
         obtain ⟨w, r, pos1, rfl, hw, hr⟩ := S_inv_punct 91 rfl hS h1
         obtain ⟨w', r', pos2, rfl, hw', hr'⟩ := S_inv_punct 93 rfl hr.symm h2
-        exact ⟨w, 91 :: w' ++ [93], r', pos2, by simp, hw, Value.emptyArr w' hw', hr'⟩
+        exact ⟨w, 91 :: w' ++ [93], [], r', pos2, by simp, hw, allWs_nil, Value.emptyArr w' hw', hr'⟩
       case arr t c rest ns h1 h2 h3 =>
         obtain ⟨w, r, pos1, rfl, hw, hr⟩ := S_inv_punct 91 rfl hS h1
         rw [hr] at h3
         obtain ⟨body, buf', pos2, rfl, hm, hts⟩ := ihe _ _ _ _ h3
-        exact ⟨w, 91 :: body ++ [93], buf', pos2, by simp, hw, Value.arr body ns hm, hts⟩
+        exact ⟨w, 91 :: body ++ [93], [], buf', pos2, by simp, hw, allWs_nil, Value.arr body ns hm, hts⟩
       case num t m e h1 h2 =>
         obtain ⟨w, buf2, pos1, rfl, hw, hr⟩ := S_inv_lit hS (Or.inr (Or.inl h1))
-        exact ⟨w, t.bytes, buf2, pos1, rfl, hw, Value.vnum _ _ _ (parseNumberBytes_sound h2), hr⟩
+        exact ⟨w, t.bytes, [], buf2, pos1, by simp, hw, allWs_nil,
+          Value.vnum _ _ _ (parseNumberBytes_sound h2), hr⟩
       case str t d h1 h2 =>
         obtain ⟨w, buf2, pos1, rfl, hw, hr⟩ := S_inv_lit hS (Or.inl h1)
-        exact ⟨w, t.bytes, buf2, pos1, rfl, hw, Value.vstr _ _ (parseStringBytes_sound h2), hr⟩
+        obtain ⟨s, w', hb, hw', hstr⟩ := string_token_sound h2
+        exact ⟨w, s, w', buf2, pos1, by rw [hb]; simp, hw, hw', Value.vstr _ _ hstr, hr⟩
       case ktrue t h1 h2 =>
         obtain ⟨w, buf2, pos1, rfl, hw, hr⟩ := S_inv_lit hS (Or.inr (Or.inr h1))
-        exact ⟨w, t.bytes, buf2, pos1, rfl, hw, h2 ▸ Value.vtrue, hr⟩
+        exact ⟨w, t.bytes, [], buf2, pos1, by simp, hw, allWs_nil, h2 ▸ Value.vtrue, hr⟩
       case kfalse t h1 h2 =>
         obtain ⟨w, buf2, pos1, rfl, hw, hr⟩ := S_inv_lit hS (Or.inr (Or.inr h1))
-        exact ⟨w, t.bytes, buf2, pos1, rfl, hw, h2 ▸ Value.vfalse, hr⟩
+        exact ⟨w, t.bytes, [], buf2, pos1, by simp, hw, allWs_nil, h2 ▸ Value.vfalse, hr⟩
       case knull t h1 h2 =>
         obtain ⟨w, buf2, pos1, rfl, hw, hr⟩ := S_inv_lit hS (Or.inr (Or.inr h1))
-        exact ⟨w, t.bytes, buf2, pos1, rfl, hw, h2 ▸ Value.vnull, hr⟩
+        exact ⟨w, t.bytes, [], buf2, pos1, by simp, hw, allWs_nil, h2 ▸ Value.vnull, hr⟩
     · intro buf pos ns ts h
       rw [parseElems_iff] at h
       cases h
       case one v sep h2 h1 =>
-        obtain ⟨w, bv, buf', pos1, rfl, hw, hv, hr⟩ := ihv _ _ _ _ h1
+        obtain ⟨w, bv, w', buf', pos1, rfl, hw, hw', hv, hr⟩ := ihv _ _ _ _ h1
         obtain ⟨w2, r, pos2, rfl, hw2, hr2⟩ := S_inv_punct 93 rfl hr.symm h2
-        exact ⟨w ++ bv ++ w2, r, pos2, by simp, Elems.one w bv w2 v hw hw2 hv, hr2⟩
+        exact ⟨w ++ bv ++ (w' ++ w2), r, pos2, by simp,
+          Elems.one w bv (w' ++ w2) v hw (allWs_append hw' hw2) hv, hr2⟩
       case cons v sep rest ns' h1 h2 h3 =>
-        obtain ⟨w, bv, buf', pos1, rfl, hw, hv, hr⟩ := ihv _ _ _ _ h1
+        obtain ⟨w, bv, w', buf', pos1, rfl, hw, hw', hv, hr⟩ := ihv _ _ _ _ h1
         obtain ⟨w2, r, pos2, rfl, hw2, hr2⟩ := S_inv_punct 44 rfl hr.symm h2
         rw [hr2] at h3
         obtain ⟨body, buf'', pos3, rfl, he, hts⟩ := ihe _ _ _ _ h3
-        exact ⟨w ++ bv ++ w2 ++ 44 :: body, buf'', pos3, by simp, Elems.cons w bv w2 body v ns' hw hw2 hv he, hts⟩
+        exact ⟨w ++ bv ++ (w' ++ w2) ++ 44 :: body, buf'', pos3, by simp,
+          Elems.cons w bv (w' ++ w2) body v ns' hw (allWs_append hw' hw2) hv he, hts⟩
     · intro buf pos ms ts h
       rw [parseMembers_iff] at h
       generalize hS : S adv buf pos = toks at h
       cases h
       case one k colon toks' name v sep h1 h2 h3 h5 h4 =>
         obtain ⟨w1, buf2, pos1, rfl, hw1, hr1⟩ := S_inv_lit hS (Or.inl h1)
+        obtain ⟨ks, kw, hkb, hkw, hkstr⟩ := string_token_sound h3
         obtain ⟨w2, r2, pos2, rfl, hw2, hr2⟩ := S_inv_punct 58 rfl hr1.symm h2
         rw [hr2] at h4
-        obtain ⟨w3, bv, buf', pos3, rfl, hw3, hv, hr3⟩ := ihv _ _ _ _ h4
+        obtain ⟨w3, bv, w3', buf', pos3, rfl, hw3, hw3', hv, hr3⟩ := ihv _ _ _ _ h4
         obtain ⟨w4, r4, pos4, rfl, hw4, hr4⟩ := S_inv_punct 125 rfl hr3.symm h5
-        exact ⟨w1 ++ k.bytes ++ w2 ++ 58 :: w3 ++ bv ++ w4, r4, pos4, by simp,
-          Members.one w1 k.bytes w2 w3 bv w4 name v hw1 hw2 hw3 hw4 (parseStringBytes_sound h3) hv, hr4⟩
+        exact ⟨w1 ++ ks ++ (kw ++ w2) ++ 58 :: w3 ++ bv ++ (w3' ++ w4), r4, pos4, by rw [hkb]; simp,
+          Members.one w1 ks (kw ++ w2) w3 bv (w3' ++ w4) name v hw1 (allWs_append hkw hw2) hw3
+            (allWs_append hw3' hw4) hkstr hv, hr4⟩
       case cons k colon toks' name v sep rest ms' h1 h2 h3 h4 h5 h6 =>
         obtain ⟨w1, buf2, pos1, rfl, hw1, hr1⟩ := S_inv_lit hS (Or.inl h1)
+        obtain ⟨ks, kw, hkb, hkw, hkstr⟩ := string_token_sound h3
         obtain ⟨w2, r2, pos2, rfl, hw2, hr2⟩ := S_inv_punct 58 rfl hr1.symm h2
         rw [hr2] at h4
-        obtain ⟨w3, bv, buf', pos3, rfl, hw3, hv, hr3⟩ := ihv _ _ _ _ h4
+        obtain ⟨w3, bv, w3', buf', pos3, rfl, hw3, hw3', hv, hr3⟩ := ihv _ _ _ _ h4
         obtain ⟨w4, r4, pos4, rfl, hw4, hr4⟩ := S_inv_punct 44 rfl hr3.symm h5
         rw [hr4] at h6
         obtain ⟨body, buf'', pos5, rfl, hm, hts⟩ := ihm _ _ _ _ h6
-        exact ⟨w1 ++ k.bytes ++ w2 ++ 58 :: w3 ++ bv ++ w4 ++ 44 :: body, buf'', pos5, by simp,
-          Members.cons w1 k.bytes w2 w3 bv w4 body name v ms' hw1 hw2 hw3 hw4 (parseStringBytes_sound h3) hv hm, hts⟩
+        exact ⟨w1 ++ ks ++ (kw ++ w2) ++ 58 :: w3 ++ bv ++ (w3' ++ w4) ++ 44 :: body, buf'', pos5,
+          by rw [hkb]; simp,
+          Members.cons w1 ks (kw ++ w2) w3 bv (w3' ++ w4) body name v ms' hw1 (allWs_append hkw hw2) hw3
+            (allWs_append hw3' hw4) hkstr hv hm, hts⟩
 
 theorem accept_sound (adv : List Byte → Nat) (bs : List Byte) (n : Node)
     (h : parseExpression adv bs = some n) : JsonText bs n := by
@@ -163,8 +189,8 @@ theorem accept_sound (adv : List Byte → Nat) (bs : List Byte) (n : Node)
     split at h
     · rename_i hty
       cases h
-      obtain ⟨w, v, buf', pos', hb, hw, hv, hts⟩ := (parse_sound adv _).1 _ _ _ _ hpv
-      exact ⟨w, v, buf', hb, hw, S_inv_eof hts.symm hty, hv⟩
+      obtain ⟨w, v, w', buf', pos', hb, hw, hw', hv, hts⟩ := (parse_sound adv _).1 _ _ _ _ hpv
+      exact ⟨w, v, w' ++ buf', by rw [hb]; simp, hw, allWs_append hw' (S_inv_eof hts.symm hty), hv⟩
     · cases h
   · cases h
 
@@ -214,16 +240,16 @@ theorem S_punct_ws (adv : List Byte → Nat) {w : List Byte} (hw : AllWs w) {c :
     ∃ pos', S adv (w ++ c :: r) pos = ⟨ty, [c], pos + w.length⟩ :: S adv r pos' :=
   ⟨_, by rw [S_ws adv hw, S_punct adv hc]⟩
 
-theorem S_string_ws {adv : List Byte → Nat} (hs : SafeAdv adv) {w : List Byte} (hw : AllWs w) {k name : List Byte}
+theorem S_string_ws (adv : List Byte → Nat) {w : List Byte} (hw : AllWs w) {k name : List Byte}
     (hk : IsString k name) (r : List Byte) (pos : Nat) :
     ∃ pos', S adv (w ++ k ++ r) pos = ⟨.string, k, pos + w.length⟩ :: S adv r pos' := by
   cases hk with
   | mk s d hc =>
     have : (34 :: s ++ [34]) ++ r = 34 :: s ++ 34 :: r := by simp
-    exact ⟨_, by rw [List.append_assoc, S_ws adv hw, this, S_string hs (Chars.okBody hc)]⟩
+    exact ⟨_, by rw [List.append_assoc, S_ws adv hw, this, S_string adv (Chars.okBody hc)]⟩
 
 mutual
-theorem complete_value {adv : List Byte → Nat} (hs : SafeAdv adv) {v : List Byte} {n : Node} (h : Value v n)
+theorem complete_value (adv : List Byte → Nat) {v : List Byte} {n : Node} (h : Value v n)
     (rest : List Byte) (pos : Nat) (hf : Follow rest) :
     ∃ f pos', parseValue f (S adv (v ++ rest) pos) = some (n, S adv rest pos') :=
   match h with
@@ -249,7 +275,7 @@ theorem complete_value {adv : List Byte → Nat} (hs : SafeAdv adv) {v : List By
     rw [S_number adv hb hall hf, parseValue_iff]
     exact PV.num _ _ _ _ rfl (parseNumberBytes_complete hn)
   | .vstr bs d hstr => by
-    obtain ⟨pos', hS⟩ := S_string_ws hs (w := []) (fun _ h => by cases h) hstr rest pos
+    obtain ⟨pos', hS⟩ := S_string_ws adv (w := []) (fun _ h => by cases h) hstr rest pos
     refine ⟨1, pos', ?_⟩
     rw [List.nil_append] at hS
     rw [hS, parseValue_iff]
@@ -261,7 +287,7 @@ theorem complete_value {adv : List Byte → Nat} (hs : SafeAdv adv) {v : List By
     rw [this, S_punct adv (b := 91) rfl, hS, parseValue_iff]
     exact PV.emptyArr _ _ _ rfl rfl
   | .arr body vs he => by
-    obtain ⟨f, pos', hE⟩ := complete_elems hs he rest (pos + 1)
+    obtain ⟨f, pos', hE⟩ := complete_elems adv he rest (pos + 1)
     obtain ⟨t, ts, hts, hne⟩ := parseElems_head hE
     refine ⟨f + 1, pos', ?_⟩
     have : (91 :: body ++ [93]) ++ rest = 91 :: (body ++ 93 :: rest) := by simp
@@ -275,7 +301,7 @@ theorem complete_value {adv : List Byte → Nat} (hs : SafeAdv adv) {v : List By
     rw [this, S_punct adv (b := 123) rfl, hS, parseValue_iff]
     exact PV.emptyObj _ _ _ rfl rfl
   | .obj body ms hm => by
-    obtain ⟨f, pos', hE⟩ := complete_members hs hm rest (pos + 1)
+    obtain ⟨f, pos', hE⟩ := complete_members adv hm rest (pos + 1)
     obtain ⟨t, ts, hts, hne⟩ := parseMembers_head hE
     refine ⟨f + 1, pos', ?_⟩
     have : (123 :: body ++ [125]) ++ rest = 123 :: (body ++ 125 :: rest) := by simp
@@ -283,12 +309,12 @@ theorem complete_value {adv : List Byte → Nat} (hs : SafeAdv adv) {v : List By
     rw [hts] at hE ⊢
     exact PV.obj _ _ _ _ _ rfl hne hE
 
-theorem complete_elems {adv : List Byte → Nat} (hs : SafeAdv adv) {body : List Byte} {ns : List Node}
+theorem complete_elems (adv : List Byte → Nat) {body : List Byte} {ns : List Node}
     (h : Elems body ns) (rest : List Byte) (pos : Nat) :
     ∃ f pos', parseElems f (S adv (body ++ 93 :: rest) pos) = some (ns, S adv rest pos') :=
   match h with
   | .one w1 v w2 n hw1 hw2 hv => by
-    obtain ⟨f, pos1, hV⟩ := complete_value hs hv (w2 ++ 93 :: rest) (pos + w1.length)
+    obtain ⟨f, pos1, hV⟩ := complete_value adv hv (w2 ++ 93 :: rest) (pos + w1.length)
       (follow_sep hw2 (Or.inr (Or.inl rfl)) rest)
     obtain ⟨pos2, hS⟩ := S_punct_ws adv hw2 (c := 93) rfl rest pos1
     refine ⟨f + 1, pos2, ?_⟩
@@ -297,10 +323,10 @@ theorem complete_elems {adv : List Byte → Nat} (hs : SafeAdv adv) {body : List
     rw [hS] at hV
     exact PE.one _ _ _ _ hV rfl
   | .cons w1 v w2 r n ns' hw1 hw2 hv he => by
-    obtain ⟨f1, pos1, hV⟩ := complete_value hs hv (w2 ++ 44 :: (r ++ 93 :: rest)) (pos + w1.length)
+    obtain ⟨f1, pos1, hV⟩ := complete_value adv hv (w2 ++ 44 :: (r ++ 93 :: rest)) (pos + w1.length)
       (follow_sep hw2 (Or.inl rfl) _)
     obtain ⟨pos2, hS⟩ := S_punct_ws adv hw2 (c := 44) rfl (r ++ 93 :: rest) pos1
-    obtain ⟨f2, pos3, hE⟩ := complete_elems hs he rest pos2
+    obtain ⟨f2, pos3, hE⟩ := complete_elems adv he rest pos2
     refine ⟨max f1 f2 + 1, pos3, ?_⟩
     have : (w1 ++ v ++ w2 ++ 44 :: r) ++ 93 :: rest = w1 ++ (v ++ (w2 ++ 44 :: (r ++ 93 :: rest))) := by simp
     rw [this, S_ws adv hw1, parseElems_iff]
@@ -308,14 +334,14 @@ theorem complete_elems {adv : List Byte → Nat} (hs : SafeAdv adv) {body : List
     exact PE.cons _ _ _ _ _ _ (parseValue_mono (Nat.le_max_left _ _) hV) rfl
       (parseElems_mono (Nat.le_max_right _ _) hE)
 
-theorem complete_members {adv : List Byte → Nat} (hs : SafeAdv adv) {body : List Byte}
+theorem complete_members (adv : List Byte → Nat) {body : List Byte}
     {ms : List (List Byte × Node)} (h : Members body ms) (rest : List Byte) (pos : Nat) :
     ∃ f pos', parseMembers f (S adv (body ++ 125 :: rest) pos) = some (ms, S adv rest pos') :=
   match h with
   | .one w1 k w2 w3 v w4 name n hw1 hw2 hw3 hw4 hk hv => by
-    obtain ⟨p1, hS1⟩ := S_string_ws hs hw1 hk (w2 ++ 58 :: (w3 ++ (v ++ (w4 ++ 125 :: rest)))) pos
+    obtain ⟨p1, hS1⟩ := S_string_ws adv hw1 hk (w2 ++ 58 :: (w3 ++ (v ++ (w4 ++ 125 :: rest)))) pos
     obtain ⟨p2, hS2⟩ := S_punct_ws adv hw2 (c := 58) rfl (w3 ++ (v ++ (w4 ++ 125 :: rest))) p1
-    obtain ⟨f, p3, hV⟩ := complete_value hs hv (w4 ++ 125 :: rest) (p2 + w3.length)
+    obtain ⟨f, p3, hV⟩ := complete_value adv hv (w4 ++ 125 :: rest) (p2 + w3.length)
       (follow_sep hw4 (Or.inr (Or.inr rfl)) rest)
     obtain ⟨p4, hS4⟩ := S_punct_ws adv hw4 (c := 125) rfl rest p3
     refine ⟨f + 1, p4, ?_⟩
@@ -326,12 +352,12 @@ theorem complete_members {adv : List Byte → Nat} (hs : SafeAdv adv) {body : Li
     rw [S_ws adv hw3]
     exact PM.one _ _ _ _ _ _ _ rfl rfl (parseStringBytes_complete hk) hV rfl
   | .cons w1 k w2 w3 v w4 r name n ms' hw1 hw2 hw3 hw4 hk hv hm => by
-    obtain ⟨p1, hS1⟩ := S_string_ws hs hw1 hk (w2 ++ 58 :: (w3 ++ (v ++ (w4 ++ 44 :: (r ++ 125 :: rest))))) pos
+    obtain ⟨p1, hS1⟩ := S_string_ws adv hw1 hk (w2 ++ 58 :: (w3 ++ (v ++ (w4 ++ 44 :: (r ++ 125 :: rest))))) pos
     obtain ⟨p2, hS2⟩ := S_punct_ws adv hw2 (c := 58) rfl (w3 ++ (v ++ (w4 ++ 44 :: (r ++ 125 :: rest)))) p1
-    obtain ⟨f1, p3, hV⟩ := complete_value hs hv (w4 ++ 44 :: (r ++ 125 :: rest)) (p2 + w3.length)
+    obtain ⟨f1, p3, hV⟩ := complete_value adv hv (w4 ++ 44 :: (r ++ 125 :: rest)) (p2 + w3.length)
       (follow_sep hw4 (Or.inl rfl) _)
     obtain ⟨p4, hS4⟩ := S_punct_ws adv hw4 (c := 44) rfl (r ++ 125 :: rest) p3
-    obtain ⟨f2, p5, hM⟩ := complete_members hs hm rest p4
+    obtain ⟨f2, p5, hM⟩ := complete_members adv hm rest p4
     refine ⟨max f1 f2 + 1, p5, ?_⟩
     have : (w1 ++ k ++ w2 ++ 58 :: w3 ++ v ++ w4 ++ 44 :: r) ++ 125 :: rest
         = w1 ++ k ++ (w2 ++ 58 :: (w3 ++ (v ++ (w4 ++ 44 :: (r ++ 125 :: rest))))) := by simp
@@ -342,13 +368,13 @@ theorem complete_members {adv : List Byte → Nat} (hs : SafeAdv adv) {body : Li
       (parseValue_mono (Nat.le_max_left _ _) hV) rfl (parseMembers_mono (Nat.le_max_right _ _) hM)
 end
 
-theorem accept_complete (adv : List Byte → Nat) (hs : SafeAdv adv) (bs : List Byte) (n : Node)
+theorem accept_complete (adv : List Byte → Nat) (bs : List Byte) (n : Node)
     (h : JsonText bs n) : parseExpression adv bs = some n := by
   obtain ⟨w1, v, w2, rfl, hw1, hw2, hv⟩ := h
   have hf : Follow w2 := by
     have := Follow.ws hw2 Follow.nil
     rwa [List.append_nil] at this
-  obtain ⟨f, pos', hV⟩ := complete_value hs hv w2 (0 + w1.length) hf
+  obtain ⟨f, pos', hV⟩ := complete_value adv hv w2 (0 + w1.length) hf
   have hw2' : S adv w2 pos' = [⟨.eof, [], pos' + w2.length⟩] := by
     have := S_ws adv hw2 [] pos'
     rwa [List.append_nil, S_nil] at this
@@ -362,7 +388,7 @@ theorem accept_complete (adv : List Byte → Nat) (hs : SafeAdv adv) (bs : List 
   rw [hV']
   rfl
 
-theorem file_accept_iff (adv : List Byte → Nat) (hs : SafeAdv adv) (bs : List Byte) (n : Node) :
+theorem file_accept_iff (adv : List Byte → Nat) (bs : List Byte) (n : Node) :
     parseFile adv bs = some n ↔ (JsonText bs n ∧ ((∃ a, n = .obj a) ∨ (∃ a, n = .arr a))) := by
   constructor
   · intro h
@@ -376,7 +402,7 @@ theorem file_accept_iff (adv : List Byte → Nat) (hs : SafeAdv adv) (bs : List 
       exact ⟨accept_sound adv bs _ ha, Or.inr ⟨a, rfl⟩⟩
     · cases h
   · rintro ⟨hj, ho⟩
-    have := accept_complete adv hs bs n hj
+    have := accept_complete adv bs n hj
     unfold parseFile
     rw [this]
     rcases ho with ⟨a, rfl⟩ | ⟨a, rfl⟩ <;> rfl
